@@ -132,6 +132,11 @@ def render_prog(prog, inline_includes=False, join_labels=False):
             if inline_includes:
                 files[stack[-1]].append('; end include')
             continue
+        if k in ('lzone', 'lorgz', 'lorg'):
+            # the directive with a uniquely named label in front of it on the same source line
+            files[cur].append(f'Entry{idx}: ' + line_text(k[1:], n, a, b))
+            pos[idx] = (cur, len(files[cur]))
+            continue
         if join_labels and k in JOINABLE and idx >= 2 and prog[idx - 2][0] == 'lab' and pos.get(idx - 1, (None, 0)) == (cur, len(files[cur])):
             files[cur][-1] += ' ' + line_text(k, n, a, b)
         else:
